@@ -441,12 +441,22 @@ func genRequests(t *rapid.T, m *material) []request {
 			blk := known[rapid.IntRange(0, len(known)-1).Draw(t, "confirmWhich")]
 			var signs []int
 			for i := 0; i < d; i++ {
+				// never the node's own key: only the node itself signs with it (a packet carrying its "own" confirm for a block it
+				// would not sign makes it look as if it had signed two blocks of one height)
+				if m.w.Deputies[i] == m.self || string(m.w.Deputies[i].NodeID) == string(m.self.NodeID) {
+					continue
+				}
 				if rapid.IntRange(0, 2).Draw(t, "signer") != 0 {
 					signs = append(signs, i)
 				}
 			}
 			if len(signs) == 0 {
-				signs = []int{0}
+				for i := 0; i < d; i++ {
+					if string(m.w.Deputies[i].NodeID) != string(m.self.NodeID) {
+						signs = []int{i}
+						break
+					}
+				}
 			}
 			reqs = append(reqs, request{kind: "confirms", block: blk, signs: signs})
 		default:
